@@ -280,7 +280,9 @@ def x5(prog, rep):
     for o in prog.owners(r"^astria_core::execution::v2::CommitmentStateBuilder::<.*>::build$"):
         b = prog.main_body(o)
         oks = result_blocks(b, "Ok")
-        gt = rel(b, "Gt", r"firm_executed_block_metadata", r"soft_executed_block_metadata")
+        # exactly number(firm) > number(soft): no slack term on either side
+        gt = rel(b, "Gt", r"^number\(self\.firm_executed_block_metadata(\.0)?\)$",
+                 r"^number\(self\.soft_executed_block_metadata(\.0)?\)$")
         rep.check(bool(gt) and bool(oks) and all(b.must_pass_edges(set(gt[0].false_edges), k) for k in oks),
                   "X5", "build<=firm<=soft",
                   "a CommitmentState with firm.number > soft.number can be built", b.describe())
